@@ -131,6 +131,8 @@ def real_exec(line: str) -> str:
 
 def _exec(op, kv):
     if op == "PAIR":
+        if kv.get("unit", "1") != "1":
+            return _pair_fractional(kv)
         eng = shared(AlignerEngine, int(kv["md"]))
         eng.iteration = int(kv["it"])
         res = eng.align(C.parse_map(kv["REF"]), C.parse_map(kv["QRY"]), int(kv["start"]), int(kv["stop"]),
@@ -324,6 +326,15 @@ def _exec(op, kv):
     if op == "READCMAP":
         return _readcmap(kv)
     if op == "TRIM":
+        if kv.get("unit", "1") != "1":
+            # coordinates of the line are in 1/unit bp; the real map gets exact fractions (CMAP coordinates carry one
+            # decimal). The trimmed length `last - first + 1` bp is `last' - first' + unit` units: canonical form = the
+            # model's `last' - first' + 1`
+            u = int(kv["unit"])
+            a, b, c, d = kv["M"].split(":")
+            m = OpticalMap(int(a), Fraction(int(b) + u - 1, u), [Fraction(int(x), u) for x in d.split(",")] if d else [], int(c)).trim()
+            ln = m.length * u - (u - 1) if d else m.length * u - (u - 1)
+            return f"{num(m.moleculeId)}:{num(ln)}:{num(m.shift)}:{','.join(num(p * u) for p in m.positions)}"
         return C.show_map(C.parse_map(kv["M"]).trim())
     if op == "LABELS":
         return " ".join(f"{num(l.siteId)}:{num(l.position)}" for l in C.parse_map(kv["M"]).getPositionsWithSiteIds(kv["rev"] == "1"))
@@ -661,3 +672,26 @@ def _defaults():
     finally:
         import shutil
         shutil.rmtree(d, ignore_errors=True)
+
+
+def _pair_fractional(kv):
+    """PAIR with coordinates in 1/unit bp: the real engine gets exact `Fraction` coordinates (duck typing), everything it
+    returns is scaled back to integer units.  The molecule length L (bp) only enters through `L - 1 - p` on the reverse
+    strand; the line carries `L' = unit*L - (unit - 1)` so that the model's `L' - 1 - p'` is `unit*(L - 1 - p)`."""
+    u = int(kv["unit"])
+
+    def fmap(s):
+        a, b, c, d = s.split(":")
+        return OpticalMap(int(a), Fraction(int(b) + u - 1, u), [Fraction(int(x), u) for x in d.split(",")] if d else [], int(c))
+    eng = shared(AlignerEngine, Fraction(int(kv["md"]), u))
+    eng.iteration = int(kv["it"])
+    res = eng.align(fmap(kv["REF"]), fmap(kv["QRY"]), Fraction(int(kv["start"]), u), Fraction(int(kv["stop"]), u), kv["rev"] == "1")
+    out = []
+    for p in res:
+        if isinstance(p, AlignedPair):
+            out.append(f"P:{num(p.reference.siteId)}:{num(p.reference.position * u)}:{num(p.query.siteId)}:{num(p.query.position * u)}:{num(p.queryShift * u)}")
+        elif type(p).__name__ == "NotAlignedReferencePosition":
+            out.append(f"R:{num(p.reference.siteId)}:{num(p.reference.position * u)}")
+        else:
+            out.append(f"Q:{num(p.query.siteId)}:{num(p.query.position * u)}:{num(p.referenceStart * u)}")
+    return ",".join(out)
